@@ -65,9 +65,15 @@ def layout(enc):
         if e['count'] <= 0:
             continue
         if e['inter']:
-            # interleaved: all rows of the chunks read together; allow the chunk's raw data
-            ext.append(dict(start=e['chunk_start'], end=min(e['chunk_start'] + e['chunk_size'], size),
-                            first=e['first'], count=e['count'], seg=e['seg']))
+            # interleaved: all rows of the chunks read together; allow the chunk's raw data.  In a truncated final
+            # segment the bytes of an incomplete trailing row/chunk (they hold no value) count with the last chunk.
+            end = min(e['chunk_start'] + e['chunk_size'], size)
+            sg = enc.segs[e['seg']]
+            if sg['trunc'] and e['seg'] == len(enc.segs) - 1:
+                later = [x for x in ch.extents if x['seg'] == e['seg'] and x['chunk'] > e['chunk'] and min(x['count'], n - x['first']) > 0]
+                if not later:
+                    end = sg['end']
+            ext.append(dict(start=e['chunk_start'], end=end, first=e['first'], count=e['count'], seg=e['seg']))
         else:
             ext.append(dict(start=e['start'], end=min(e['start'] + e['nbytes'], size), first=e['first'],
                             count=e['count'], seg=e['seg']))
